@@ -96,6 +96,8 @@ def run(chk):
                     f"{f.short}() runs an in-place algorithm on the receiver instead of a shallow copy")
 
 
+    from . import e10
+    e10.run_U(chk, ("yastn.tn.mps._mps_obc", "yastn.tn.mps._mps_parent", "yastn.tn.mps._compression", "yastn.tn.mps._initialize"), floor1=5, floor2=1)
 
 def run_P3(chk):
     """shallow_copy carries every mutable state field of the MPS (fields set in _MpsMpoParent.__init__ and written again elsewhere)"""
